@@ -97,7 +97,7 @@ def run(ctx, report: Report) -> None:
                                                  'FLG_OUT_OF_RANGE', 'FLG_PLACEHOLDER_SHOWN', 'FLG_PSEUDO')}
 
     # ---- R1 ----------------------------------------------------------------------------------------------
-    r1 = report.rule('C17-R1', 'partition laws by construction of the definitions', floor=15)
+    r1 = report.rule('C17-R1', 'partition laws by construction of the definitions', floor=11)
 
     def law(key, ok, detail, msg):
         r1.instance({'law': key, **detail, 'holds': ok}, key=key)
@@ -169,7 +169,7 @@ def run(ctx, report: Report) -> None:
         law(f'{n}-html-only', ok, {}, f'{n} is not compiled with FLG_HTML: an HTML state pseudo-class would match in plain XML')
 
     # ---- R2 ----------------------------------------------------------------------------------------------
-    r2 = report.rule('C17-R2', 'document-context walks respect the iframe boundary', floor=15)
+    r2 = report.rule('C17-R2', 'document-context walks respect the iframe boundary', floor=125)
     const_true = {'match_default', 'match_indeterminate', 'match_indeterminate.get_parent_form', 'match_dir'}
     by_flag = {'match_lang': 'self.is_html', 'match_contains': 'self.is_html', 'match_past_relations': 'self.iframe_restrict',
                'match_future_child': 'self.iframe_restrict'}
@@ -237,7 +237,7 @@ def run(ctx, report: Report) -> None:
         r2.violation('css_match.CSSMatch.find_bidi iframe', mmod.where(fb), 'find_bidi no longer skips iframe elements')
 
     # ---- R3 ----------------------------------------------------------------------------------------------
-    r3 = report.rule('C17-R3', 'memo tables are identity-keyed lists', floor=2)
+    r3 = report.rule('C17-R3', 'memo tables are identity-keyed lists', floor=5)
     _, init = src.func('css_match.CSSMatch.__init__')
     for st in walk_no_nested(init):
         if isinstance(st, ast.Assign) and unparse(st.targets[0]).startswith('self.cached_'):
@@ -265,7 +265,7 @@ def run(ctx, report: Report) -> None:
                          f'{short} does not look its form up in {cache} by an identity (`is`) scan')
 
     # ---- R4 ----------------------------------------------------------------------------------------------
-    r4 = report.rule('C17-R4', 'in-range / out-of-range cover exactly the inputs with a valid bound', floor=100)
+    r4 = report.rule('C17-R4', 'in-range / out-of-range cover exactly the inputs with a valid bound', floor=448)
     from .c18 import range_table
     _, mr = src.func('css_match.CSSMatch.match_range')
     itype_var = None
